@@ -44,14 +44,13 @@ def r1(ctx):
     ctx.check(sum(fmt_size(s.fmt) for s in packs) == SIZE == fmt_size(u.fmt), "C09.R1", tb, "header size == PacketHeader.SIZE on both sides",
               witness={"pack": sum(fmt_size(s.fmt) for s in packs), "unpack": fmt_size(u.fmt), "SIZE": SIZE})
     # value conversions are inverse:  pkt_type.value <-> PacketType(x); SeqNum(x) <-> int; ident by isServer
-    asg = {}
-    for n in walk_own(fb.node):
-        if isinstance(n, ast.Assign) and isinstance(n.targets[0], ast.Attribute):
-            asg[n.targets[0].attr] = norm(n.value)
-    want = {"pkt_type": "PacketType(pkt_type)", "seq": "SeqNum(seq)", "ack": "SeqNum(ack)", "ack_bits": "ack_bits", "ctime": "time",
-            "isServer": "ident == PacketIdentifier.TO_SERVER.value"}
-    ctx.check(all(asg.get(k) == v for k, v in want.items()), "C09.R1", fb, "decoded header values are the wire values (type and sequence wrappers only)",
-              witness={k: asg.get(k) for k in want})
+    # (by value: what each attribute finally holds, in terms of the unpacked wire value of its own field)
+    dv = c01.decoded_header_values(ctx)
+    shapes = {"pkt_type": ("PacketType(%s)",), "seq": ("SeqNum(%s)",), "ack": ("SeqNum(%s)",), "ack_bits": ("%s",), "ctime": ("%s",),
+              "isServer": ("%s == PacketIdentifier.TO_SERVER.value", "PacketIdentifier.TO_SERVER.value == %s")}
+    okv = all(dv.get(k, (None, None))[1] is not None and dv[k][0] in tuple(x % dv[k][1] for x in shapes[k]) for k in shapes)
+    ctx.check(okv, "C09.R1", fb, "decoded header values are the wire values (type and sequence wrappers only)",
+              witness={k: dv.get(k, (None, None))[0] for k in shapes})
     # TO_SERVER identifier means "to the server": a header decoded with isServer == True came from a client (isServer False when packed)
     sel = [n for n in walk_own(tb.node) if isinstance(n, ast.IfExp)]
     ctx.check(len(sel) == 1 and norm(sel[0]) == "PacketIdentifier.TO_CLIENT if self.isServer else PacketIdentifier.TO_SERVER", "C09.R1", tb, "direction identifier by isServer", witness=[norm(s) for s in sel])
